@@ -96,9 +96,10 @@ func HookFrom(suffix string, diags diag.Diagnostics, v attr.Value, ptr interface
 // HookTo is CopyTo<S>.
 func HookTo(suffix string, diags diag.Diagnostics, field interface{}, t attr.Type, cur attr.Value) attr.Value {
 	g := ToGV(reflect.ValueOf(field))
-	recordHook(J{"hook": "CopyTo", "suffix": suffix, "field": g, "type": TypeToTT(t), "cur": ValueToTV(cur)})
 	b, _ := json.Marshal(g)
-	return types.String{Value: string(b)}
+	ret := types.String{Value: string(b)}
+	recordHook(J{"hook": "CopyTo", "suffix": suffix, "field": g, "type": TypeToTT(t), "cur": ValueToTV(cur), "ret": ValueToTV(ret)})
+	return ret
 }
 
 // ---------------------------------------------------------------------------------------------
